@@ -39,6 +39,8 @@ def confs():
         'W': dict(warning_cls_on_decorator_exception=MyWarn),
         # an explicit None is a choice too ("raise decoration errors"), not the same as leaving the option out
         'N': dict(warning_cls_on_decorator_exception=None),
+        # "do not check this subtree" is a registration like any other: it shadows what an ancestor registered
+        'O': dict(strategy=BeartypeStrategy.O0),
     }
 
 
